@@ -76,6 +76,9 @@ def _c13(ctx):
     r6, n6 = exc.rule_X6(ctx)
     r6.floor('loops', n6, 240)
     out.append(r6)
+    rn, nn = exc.rule_NAN2(ctx, None)
+    rn.floor('two-armed ifs decided by a NaN argument', nn, 40)
+    out.append(rn)
     out.append(eff.rule_flags(ctx, 'X8', T.BAD_FLAGS))
     from .rules import bounds
     # float-to-integer conversions are examined in every library file, indexes in the codecs
